@@ -81,12 +81,28 @@ class NpProxy:
 
 
 class _RandomProxy:
+    """The global numpy random stream as typhon.geographical sees it: the
+    first draw gives the permutation chosen for the run, every later draw a
+    rotation of it that depends on the stream position; get_state/set_state
+    save and restore the position, and every user of the stream - other
+    threads included - moves it on."""
+
     def __init__(self, chooser):
         self._chooser = chooser
+        self.state = 0
 
     def shuffle(self, arr):
         perm = self._chooser(len(arr))
+        if self.state and len(arr):
+            perm = np.roll(perm, self.state % len(arr))
+        self.state += 1
         arr[:] = np.asarray(arr)[perm]
+
+    def get_state(self):
+        return ("sim", self.state)
+
+    def set_state(self, st):
+        self.state = st[1]
 
     def __getattr__(self, name):
         return getattr(np.random, name)
@@ -153,6 +169,7 @@ def gen_workload(tape):
         q["rsel"] = tape.choice(10 ** 6, "rsel")
         q["rmode"] = tape.pick(["between", "between", "tiny", "huge", "between"], "rmode")
         q["unit"] = tape.pick(["number", "km", "m", "miles", "number"], "unit")
+        q["spelling"] = tape.choice(3, "spelling")
         # query the index with the very array objects it was built from
         q["self_query"] = tape.flag("self_query", 1, 6)
         qs.append(q)
@@ -192,6 +209,39 @@ def arc_matrix(b, q, R):
     a = np.sin((la2 - la1) / 2) ** 2 + np.cos(la1) * np.cos(la2) * \
         np.sin((lo2 - lo1) / 2) ** 2
     return 2 * R * np.arcsin(np.minimum(1.0, np.sqrt(a)))
+
+
+def _concurrent_build(tape, w, gmod, build_main, build_decoy):
+    from sim.kernel import Sim, Deadlock, StepCap
+    from sim.linepreempt import LinePreempt, periodic_points
+    sim = Sim(tape, {"kind": "random", "bias": 1 + tape.choice(3, "bbias")}, step_cap=4000)
+    stride = 2 + w["line_stride"] % 5
+    sim.line_preempt = LinePreempt(
+        sim, [gmod], periodic_points(1 + w["line_stride"] % 3, stride, 300),
+        only="caller", store_points=periodic_points(1, w["store_stride"], 300))
+    box = {}
+
+    def c0():
+        sim.yield_("build0")
+        box["index"] = build_main()
+
+    def c1():
+        sim.yield_("build1")
+        build_decoy()
+
+    def main():
+        a = sim.spawn("caller0", c0)
+        b = sim.spawn("caller1", c1)
+        sim.block_until(lambda: a.done and b.done, "join")
+        for t in (a, b):
+            if t.exc is not None:
+                raise t.exc
+
+    try:
+        sim.run(main)
+    except (Deadlock, StepCap):
+        pass
+    return box.get("index"), sim.digest()
 
 
 def _run_two_callers(tape, w, gmod, do_query, nq):
@@ -342,19 +392,42 @@ def run_one(tape, only=None):
         warnings.simplefilter("ignore")
         index = None
         blat, blon = build[:, 0].copy(), build[:, 1].copy()
-        for attempt in (1, 2):
+
+        def build_main():
+            for attempt in (1, 2):
+                try:
+                    return GeoIndex(blat, blon, metric=w["metric"],
+                                    tree_class=w["tree"], shuffle=w["shuffle"], **kw)
+                except Exception as e:  # noqa
+                    if plan.take_fired():
+                        probe("build_failed_and_retried")      # allowed: it may fail
+                        continue
+                    V.append(_viol(f"C06/build/exception/{type(e).__name__}",
+                                   f"{e}"[:300]))
+                    return None
+            return None
+
+        def build_decoy():
+            rs_ = np.random.RandomState(w["perm_seed"] + 5)
+            m_ = max(2, n // 2 + 1)
             try:
-                index = GeoIndex(blat, blon, metric=w["metric"],
-                                 tree_class=w["tree"], shuffle=w["shuffle"], **kw)
-                break
-            except Exception as e:  # noqa
-                if plan.take_fired():
-                    probe("build_failed_and_retried")      # allowed: it may fail
-                    continue
-                V.append(_viol(f"C06/build/exception/{type(e).__name__}", f"{e}"[:300]))
-                break
+                GeoIndex(rs_.uniform(-80, 80, m_), rs_.uniform(-170, 170, m_),
+                         metric=w["metric"], tree_class=w["tree"],
+                         shuffle=w["shuffle"], **kw)
+            except Exception:  # noqa: not the object under test
+                plan.take_fired()
+
+        if w["two_callers"] and w["shuffle"] and not w["alloc_fault"]:
+            # another thread builds an index of its own at the same time: both
+            # draw from the one global random stream
+            probe("two_threads_build_concurrently")
+            index, bdig = _concurrent_build(tape, w, gmod, build_main, build_decoy)
+            sched = bdig
+        else:
+            index = build_main()
         if index is not None:
-            perm = used_perm.get("p")
+            perm = np.array(index.shuffler) if getattr(index, "shuffler", None) is not None \
+                else used_perm.get("p")
             for k in range(w["other_indexes"]):
                 # same number of points (k == 0) or one more, other positions
                 m_ = n + k
@@ -398,6 +471,16 @@ def run_one(tape, only=None):
                 rf = float(r)
                 spell = {"number": rf, "km": f"{rf!r} km", "m": f"{rf * 1000.0!r} m",
                          "miles": f"{rf / 1.609344!r} miles"}[q["unit"]]
+                if isinstance(spell, str) and q.get("spelling"):
+                    # other legal spellings of the same number
+                    num, unit = spell.split(" ")
+                    if q["spelling"] == 1 and num.startswith("0."):
+                        num = num[1:]                      # '.5 km'
+                        probe("radius_without_leading_zero")
+                    elif q["spelling"] == 2:
+                        spell = num + unit                 # '0.5km'
+                    if q["spelling"] != 2:
+                        spell = num + " " + unit
                 if q["unit"] != "number":
                     probe("unit_string_radius")
                 try:
@@ -478,7 +561,7 @@ def run_one(tape, only=None):
                 probe("two_caller_threads")
                 two = _run_two_callers(tape, w, gmod, do_query, len(queries))
                 V.extend(two["violations"])
-                sched = two["digest"]
+                sched = [sched, two["digest"]]
                 lp_fired = two["fired"]
                 if lp_fired:
                     probe("line_preemptions_in_callers")
